@@ -808,6 +808,14 @@ func (c *Conn) SetWriteDeadline(t time.Time) error {
 	return nil
 }
 
+// PeerClosed reports whether the other end has closed the connection (observed
+// without reading).
+func (c *Conn) PeerClosed() bool {
+	c.r.mu.Lock()
+	defer c.r.mu.Unlock()
+	return c.r.wclosed || c.r.rst
+}
+
 // Reset aborts the connection (RST) from outside (fault injection).
 func (c *Conn) Reset() { c.pr.reset() }
 
@@ -1108,6 +1116,19 @@ func (n *Net) ResetConns(match func(src, dst string) bool) int {
 		p.reset()
 	}
 	return len(ps)
+}
+
+// CountConnsTo counts open connections from src whose destination host is up.
+func (n *Net) CountConnsFromToUp(src string) int {
+	n.mu.Lock()
+	defer n.mu.Unlock()
+	c := 0
+	for _, p := range n.pairList() {
+		if p.srcHost == src && n.down[p.dstHost] == 0 {
+			c++
+		}
+	}
+	return c
 }
 
 // LiveConns returns the number of tracked connections (leak oracle).
